@@ -228,6 +228,9 @@ def case_fext(c, rng, tier):
         c.tag('pd:C')
     if pdT:
         d['thetaTdeg'] = float(rng.normal() * 0.1) if rng.random() < 0.5 else 0.0
+    if rng.random() < 0.4:
+        d['tLAdeg'] = float(rng.uniform(-180, 360))      # reference meridian of the load asymmetry (enters the base functions)
+        c.tag('tLA:nonzero')
     inc = float(rng.uniform(0, 2))
     c.desc.update(shell=d, loads=loads, inc=inc)
     for k in kinds:
